@@ -266,6 +266,50 @@ def part_lists_and_sums(ctx):
             ctx.case({'sum': inp}, nontrivial_key=('sum', a, repr(inp)), kind='sum:' + ('cheat' if cheat else 'clean'))
 
 
+def part_partial_positions(ctx):
+    """SumGrader / IntegralGrader whose author uses an instructor variable in a limit, with every subset of input boxes: whatever the student is
+    asked to type (a limit, the summand/integrand) may not mention the instructor variable, even where it cancels; honest entries are accepted"""
+    import itertools
+    from mitxgraders import SumGrader, IntegralGrader, DependentSampler
+    rng = ctx.rng
+    try:
+        import scipy  # noqa: F401  (IntegralGrader imports scipy.integrate lazily; the repo's test environment does not ship it)
+        classes = [(SumGrader, 'summand', 'summation_variable', '1'), (IntegralGrader, 'integrand', 'integration_variable', '0')]
+    except ImportError:
+        ctx.count('positions:IntegralGrader skipped (no scipy in the test environment)')
+        classes = [(SumGrader, 'summand', 'summation_variable', '1')]
+    for cls, body, var, lo in classes:
+        fields = ['lower', 'upper', body, var]
+        for which in ('upper', 'lower', 'body'):
+            author = {'upper': {'lower': lo, 'upper': 'N', body: 'k', var: 'k'}, 'lower': {'lower': 'N - 20', 'upper': '3', body: 'k', var: 'k'},
+                      'body': {'lower': lo, 'upper': '4', body: 'k + N - 2*n', var: 'k'}}[which]
+            honest = dict(author); honest[body if which == 'body' else which] = {'upper': '2*n', 'lower': '2*n - 20', 'body': 'k'}[which]
+            subsets = [c for r in range(1, 5) for c in itertools.combinations(fields, r)]
+            for sub in (subsets if not ctx.quick else rng.sample(subsets, 9)):
+                pos = {f: i + 1 for i, f in enumerate(sub)}
+                try:
+                    g = cls(answers=author, input_positions=pos, variables=['n', 'N'], sample_from={'n': (2, 3, 4, 5), 'N': DependentSampler(depends=['n'], formula='2*n')}, instructor_vars=['N'])
+                except Exception:
+                    ctx.count('positions:config_rejected'); continue
+                def submit(entries):
+                    inp = [entries[f] for f in sub]
+                    return inp, D.run_impl(lambda: g(None, inp if len(inp) > 1 else inp[0]))
+                inp, (k, v) = submit(honest)
+                case = {'part': 'positions', 'class': cls.__name__, 'positions': pos, 'author_limit_with_instructor_var': which, 'student': inp}
+                if not (k == 'out' and v['ok'] is True):
+                    ctx.violation('honest entries refused', case, impl=v if k == 'err' else GG.canon_result(v))
+                ctx.case(case, nontrivial_key=('pos', cls.__name__, which, repr(pos), 'honest'), kind='positions:clean')
+                for f in sub:
+                    if f == var:
+                        continue
+                    for cheat in ([honest[f] + ' + N - N', honest[f] + ' + 0*N'] + (['N'] if (f == 'upper' and which == 'upper') else []) + (['N - 20'] if (f == 'lower' and which == 'lower') else [])):
+                        inp, (k, v) = submit(dict(honest, **{f: cheat}))
+                        case = {'part': 'positions', 'class': cls.__name__, 'positions': pos, 'author_limit_with_instructor_var': which, 'student': inp, 'cheat_in': f}
+                        if not (k == 'err' and v[0] is True and v[1] == 'UndefinedVariable'):
+                            ctx.violation('instructor variable used in the student\'s %s: must be refused as an undefined variable' % f, case, impl=v if k == 'err' else GG.canon_result(v))
+                        ctx.case(case, nontrivial_key=('pos', cls.__name__, which, repr(pos), f, cheat), kind='positions:cheat:' + f)
+
+
 POISON = ['sqrt(4) + ' + '(' * 80 + '1' + ')' * 80, 'tan(1) + cos(2) + ' + '(' * 120 + 'x' + ')' * 120, 'sqrt(', 'sqrt(2)) + tan(1', 'f(sqrt(1), tan(2) +', 'sqrt(1) + 2 3', '[' * 70 + 'sqrt(1)' + ']' * 70]
 
 
@@ -337,6 +381,7 @@ def run(ctx):
     part_lists_and_sums(ctx)
     part_history(ctx)
     part_permitted(ctx)
+    part_partial_positions(ctx)
 
 
 def search(ctx):
